@@ -310,6 +310,15 @@ def sites(tier):
                             if ulen > 8 and not (T or (off in (-ulen - 8, -ulen - 5, 4, 7, 9) and context == "random")):
                                 continue  # long neighbouring alleles (longer than REF + 2 x overhang) on a slice
                             out.append(("rpair", kind, vlen, context, ukind, ulen, off, seed0 + rep))
+        # a record with a symbolic ALT allele in the list: left of, right of and (pairs) next to ordinary variants
+        if rep == 0:
+            for symalt in ("<DEL>", "<INS>", "<DUP>") if T else ("<DEL>", "<INS>"):
+                for symoff in (-12, -6, -2, 3, 8):
+                    for kind, vlen in kinds[:9]:
+                        out.append(("sym", (kind, vlen, "random", seed0), symalt, symoff))
+                    for k1, k2 in (("SNV", "SNV"), ("SNV", "INS"), ("DEL", "SNV")):
+                        if symoff in (-6, 3):
+                            out.append(("sym", ("pair", k1, k2, 30, seed0), symalt, symoff))
         # a longer first indel followed closely by a second variant
         for k1, k2 in (("INS", "INS"), ("INS", "SNV"), ("INS", "DEL"), ("DEL", "INS"), ("DEL", "SNV"), ("DEL", "DEL")):
             for len1 in (1, 2, 3):
@@ -327,7 +336,18 @@ def run_site(site):
     from whatshap.variants import ReadSetReader
     from whatshap.vcf import VcfReader
 
-    built = build_site(site)
+    sym = None
+    if site[0] == "sym":
+        # a record with a symbolic ALT (ignored by allele detection) in the list, before or behind the site's variants
+        _, inner, symalt, symoff = site
+        built = build_site(tuple(inner))
+        if built is None:
+            return Result(n=0)
+        vs_ = built[1]
+        sym_pos = (min(v.pos for v in vs_) + symoff) if symoff < 0 else (max(v.pos + len(v.ref) for v in vs_) + symoff)
+        sym = (sym_pos, built[0][sym_pos], symalt)
+    else:
+        built = build_site(site)
     if built is None:
         return Result(n=0)
     seq, variants, alns, exp = built
@@ -341,16 +361,28 @@ def run_site(site):
     with synth.Scratch("c06") as sc:
         fasta = synth.write_fasta(os.path.join(sc.path, "ref.fa"), [("chrA", seq)])
         vcf = synth.VcfText(["S1"], contigs=[("chrA", len(seq))])
-        for v in variants:
-            vcf.add("chrA", v.pos, v.ref, v.alts, ["0/1"])
+        rows = [(v.pos, v.ref, v.alts, ".") for v in variants]
+        if sym:
+            rows.append((sym[0], sym[1], [sym[2]], "SVTYPE=" + sym[2].strip("<>") + ";END=" + str(sym[0] + 40)))
+            rows.sort(key=lambda r: r[0])
+            vcf.header += ['##ALT=<ID=' + sym[2].strip("<>") + ',Description="symbolic">', '##INFO=<ID=SVTYPE,Number=1,Type=String,Description="t">', '##INFO=<ID=END,Number=1,Type=Integer,Description="e">']
+        for pos_, ref_, alts_, info_ in rows:
+            vcf.add("chrA", pos_, ref_, alts_, ["0/1"], info=info_)
         vcf_path = vcf.write(os.path.join(sc.path, "in.vcf"))
         bam = os.path.join(sc.path, "reads.bam")
         synth.write_bam(bam, [("chrA", len(seq))], alns, read_groups=[{"ID": "rg1", "SM": "S1"}])
         with VcfReader(vcf_path) as vr:
             tables = list(vr)
-        assert len(tables) == 1 and len(tables[0].variants) == len(variants), (site, tables)
+        assert len(tables) == 1 and len(tables[0].variants) == len(variants) + (1 if sym else 0), (site, tables)
         wvars = tables[0].variants
-        pos_index = {v.position: i for i, v in enumerate(wvars)}
+        pos_index = {}
+        k_ = 0
+        for v in wvars:
+            if any(str(a).startswith("<") for a in v.get_alt_allele_list()):
+                pos_index[v.position] = "sym"
+            else:
+                pos_index[v.position] = k_
+                k_ += 1
         for mode in ("ref", "noref"):
             nsi = NumericSampleIds()
             with ReadSetReader([bam], reference=fasta if mode == "ref" else None, numeric_sample_ids=nsi, mapq_threshold=20) as rsr:
@@ -363,6 +395,9 @@ def run_site(site):
                     continue
                 g = got.get(nm, {})
                 n += 1
+                if g.get("sym", 0) != 0:
+                    # no haplotype of the site carries the symbolic allele: "0" or no allele are both within the statement
+                    viols.append(_v("wrong-allele", mode, site, nm, e, f"allele {g['sym']} recorded for the record with the symbolic ALT {sym[2]}, which the haplotype does not carry"))
                 for vi in e.get("none", []):
                     if vi in g:
                         viols.append(_v("spurious", mode, site, nm, e, f"allele {g[vi]} recorded for variant {vi} which the read does not overlap"))
